@@ -9,7 +9,13 @@
 (***************************************************************************)
 EXTENDS Integers, Sequences, FiniteSets
 
-Img(seed, i) == ((i % 256) * 7 + seed * 13 + ((i \div 256) % 256) * 3 + (i \div 65536) * 5) % 256
+\* seeds 0..6: a pattern in which every byte value occurs and which differs across 256-byte and 64 KiB blocks;
+\* 7: erased memory (all FF); 8: all zero; 9: the pattern with every third 16-byte row erased
+Pattern(seed, i) == ((i % 256) * 7 + seed * 13 + ((i \div 256) % 256) * 3 + (i \div 65536) * 5) % 256
+Img(seed, i) == CASE seed = 7 -> 255
+                  [] seed = 8 -> 0
+                  [] seed = 9 -> (IF (i \div 16) % 3 = 1 THEN 255 ELSE Pattern(seed, i))
+                  [] OTHER -> Pattern(seed, i)
 
 RECURSIVE SumSeq(_, _)
 SumSeq(s, i) == IF i > Len(s) THEN 0 ELSE s[i] + SumSeq(s, i + 1)
